@@ -291,3 +291,144 @@ def dq_random(params):
     from checks import c17
 
     return dq_program(c17.random_program(params["seed"]))
+
+
+# ----------------------------------------------------------------------------- DelayedQueue: spec -> code replay
+
+
+class _El:
+    __slots__ = ("id",)
+
+    def __init__(self, i):
+        self.id = i
+
+
+_PC_OF_LABEL = {"wait": {"waiting"}, "reacq": {"start"}, "rd:_closed": {"chk2"}, "rel": {"peeked"}, "sleep": {"sleeping"},
+                "acq": {"start", "recheck", "peeked"}, "gate": {"start", "done"}}
+
+
+def dq_replay(walk_actions, states):
+    """Spec -> code: replay one walk of DelayedQueue.tla on the real DelayedQueue.  Consumer actions are macro-steps of the
+    consumer thread between the yield points that delimit the model's atomic steps (acquire / `rd:_closed` / wait / reacquire
+    / release / sleep); Put / Remove / CloseFlag / CloseNotify are macro-steps of the other thread; Tick(g) is executed by the
+    replayer (virtual clock).  After every action the implementation's queue (ids, insert times, delay flags), closed flag,
+    clock, lock ownership, hand-out history (with times) and removed set must equal the model's successor state."""
+    from harness import replayer
+
+    w = _world()
+    DQ = w.mod("utils.delayed_queue").DelayedQueue
+    detsched.install_yield_attr(DQ, "_closed")
+    th = w.shims["threading"]
+    # C_SleepDone + the C_Delay that follows it are one macro-step of the code (no yield point in between)
+    acts = []
+    after_sleep = False
+    for a in walk_actions:
+        if a[0] == "C_Delay" and after_sleep:
+            acts.append(("C_DelayStutter", ()))
+            after_sleep = False
+            continue
+        if a[0] == "C_SleepDone":
+            after_sleep = True
+        elif a[0].startswith("C_"):
+            after_sleep = False
+        acts.append(a)
+    other_ops = [a for a in acts if a[0] in ("Put", "Remove", "CloseFlag")]
+    box = {}
+
+    def program(s):
+        q = DQ(DELAY)
+        box.update(q=q, got=[], removed=[], s=s)
+
+        def other():
+            n = 0
+            for op in other_ops:
+                s.yield_("gate")
+                if op[0] == "Put":
+                    n += 1
+                    q.put(_El(n), delay=bool(op[1][0]))
+                elif op[0] == "Remove":
+                    k = op[1][0]
+                    r = q.remove(lambda e: e.id == k)
+                    if r is not None:
+                        box["removed"].append(r.id)
+                else:
+                    q.close()
+            s.yield_("gate")
+
+        def cons():
+            while True:
+                s.yield_("gate")
+                x = q.get()
+                box["got"].append((0 if x is None else x.id, _t(s)))
+                if x is None:
+                    break
+
+        to = th.Thread(target=other, name="other")
+        tc = th.Thread(target=cons, name="cons")
+        to.start()
+        tc.start()
+        to.join()
+        q.close()      # after the walk: let the consumer finish
+        tc.join()
+
+    def task_of(a):
+        if a[0] in ("Tick", "C_DelayStutter"):
+            return None
+        return ("cons" if a[0].startswith("C_") else "other") + "#1"
+
+    def raw_closed(q):
+        return bool(q.__dict__.get("_ya__closed", False))
+
+    def boundary(t, seen):
+        lab = t.label
+        if seen is None:
+            return lab in ("gate", "acq", "reacq", "wait", "rd:_closed", "rel", "sleep")
+        a = st.actions[st.k][0]
+        q = box["q"]
+        if a in ("Put", "Remove", "CloseNotify"):
+            return lab == "gate"
+        if a == "CloseFlag":
+            return lab == "acq" and "wr:_closed" in seen
+        if a == "C_While":
+            return lab == "wait" or (lab == "rd:_closed" and (len(q._queue) > 0 or seen.count("rd:_closed") == 2))
+        if a == "C_Chk2":
+            return lab == "gate" if raw_closed(q) else lab == "rel"
+        if a == "C_Wake":
+            return lab == "reacq"
+        if a == "C_Delay":
+            return lab in ("sleep", "acq")
+        if a == "C_SleepDone":
+            return lab in ("sleep", "acq")
+        if a == "C_Recheck":
+            return lab == "gate" or (lab == "acq" and "rel" in seen)
+        return False
+
+    def env(a, sched):
+        if a[0] == "Tick":
+            sched.advance(float(a[1][0]))
+
+    def after(k, a, sched):
+        q = box["q"]
+        exp = states[k]
+        act = {"dq": [(it[0].id, int(round(it[1] - detsched.T0)), bool(it[2])) for it in q._queue], "closed": raw_closed(q),
+               "now": _t(sched), "out": list(box["got"]), "lockC": q._lock.locked(), "removed": sorted(box["removed"])}
+        want = {"dq": [(x["e"], x["t"], x["d"]) for x in exp["dq"]], "closed": exp["closed"], "now": exp["now"],
+                "out": [(o["e"], o["at"]) for o in exp["out"]], "lockC": exp["lockC"], "removed": sorted(exp["removed"])}
+        if act != want:
+            return {"k": k, "action": a, "expected": want, "actual": act}
+        ct = [t for t in sched.tasks if t.name == "cons#1"]
+        if ct:
+            lab = "done" if ct[0].state == "done" else ct[0].label
+            if exp["pc"] not in _PC_OF_LABEL.get(lab, {"done"} if lab == "done" else set()):
+                return {"k": k, "action": a, "expected_pc": exp["pc"], "consumer_parked_at": lab}
+        return None
+
+    st = replayer.MacroReplay(acts, task_of, boundary, after, env=env)
+    s = detsched.run(program, st)
+    if st.mismatch is not None:
+        return st.mismatch
+    if s.outcome != "ok":
+        return {"outcome": s.outcome, "error": s.error or s.divergence, "k": st.k, "action": acts[st.k] if st.k < len(acts) else None}
+    if st.k != len(acts):
+        return {"outcome": "short", "k": st.k}
+    return None
